@@ -122,7 +122,7 @@ def refgraphs(draw):
     users = []
     for _ in range(draw(st.integers(1, 3))):
         how = draw(st.sampled_from(['member', 'size', 'size_expr', 'const', 'const_expr', 'enumerator', 'disc', 'opt',
-                                    'dynarr', 'arm']))
+                                    'dynarr', 'arm', 'sizer', 'sizer']))
         users.append((how, draw(st.sampled_from(names))))
     if draw(st.booleans()):
         defs = draw(st.permutations(defs))
@@ -148,6 +148,9 @@ def refgraph_isar(defs, users):
         elif how == 'dynarr':
             out.append('<struct name="W%d"><member name="a" type="%s"><dimension isVariableSize="true"/></member>'
                        '</struct>' % (i, nm))
+        elif how == 'sizer':
+            out.append('<struct name="W%d"><member name="n" type="%s"/><member name="a" type="u8">'
+                       '<dimension variableSizeFieldName="@n"/></member></struct>' % (i, nm))
         elif how == 'size':
             out.append('<struct name="W%d"><member name="a" type="u8"><dimension size="%s"/></member></struct>' % (i, nm))
         elif how == 'size_expr':
@@ -181,6 +184,8 @@ def refgraph_prophy(defs, users):
             out.append('struct W%d\n{\n    %s* a;\n};' % (i, nm))
         elif how == 'dynarr':
             out.append('struct W%d\n{\n    %s a<>;\n};' % (i, nm))
+        elif how == 'sizer':
+            out.append('struct W%d\n{\n    %s n;\n    u8 a<@n>;\n};' % (i, nm))
         elif how == 'size':
             out.append('struct W%d\n{\n    u8 a[%s];\n};' % (i, nm))
         elif how == 'size_expr':
